@@ -68,6 +68,7 @@ class Ref:
         self.a = [[], []]
         self.cap = [(0, 0), (0, 0)]      # (capacity, has storage) of the arrays as last shown by the implementation
         self.t = []                      # List<Tagged>: (key, tag) pairs
+        self.u = []                      # PoolList<Tagged>
 
     def show(self, kind, v):
         if kind == "a":
@@ -90,6 +91,8 @@ class Ref:
             return self.all()
         if op[0] == "t":
             return self.tagged(t, impl)
+        if op[0] == "u":
+            return self.pool_tagged(t)
         if len(t) < 2 or not isnum(t[1]) or int(t[1]) > 1:
             return "bad-op"
         v = int(t[1])
@@ -273,6 +276,22 @@ class Ref:
             return "bad-op"
         return fmt(self.t)
 
+    def pool_tagged(self, t):
+        op = t[0]
+        if op == "uappend" and len(t) == 3 and isint(t[1]) and isint(t[2]):
+            self.u.append((int(t[1]), int(t[2])))
+        elif op == "uremove" and len(t) == 2 and isnum(t[1]):
+            if int(t[1]) >= len(self.u): return "bad-op"
+            del self.u[int(t[1])]
+        elif op == "uremoveBack" and len(t) == 1:
+            if not self.u: return "bad-op"
+            self.u.pop()
+        elif op == "uclear" and len(t) == 1:
+            self.u = []
+        else:
+            return "bad-op"
+        return f"u {len(self.u)} " + ("-" if not self.u else ",".join(f"{k}:{g}" for k, g in self.u))
+
     def array_contract(self, op, v, w, need, contract, impl):
         """capacity contract of Array evaluated on the implementation's line: size <= capacity, storage exists when
         there are elements, capacity() >= what was reserved, no reallocation while the capacity suffices, capacity never
@@ -391,6 +410,21 @@ def tagged_histories(rng, maxlen, nrandom):
         if shape == 1: ks.sort()
         if shape == 2: ks.sort(reverse=True)
         hs.append(["tclear"] + [f"tappend {k} {i}" for i, k in enumerate(ks)] + ["tsort", "tsort", f"tappend {rng.randrange(d)} {n}", "tsort"])
+    # PoolList<Tagged>: in-place construction through append(A, B), removal at every position, reuse after clear
+    for _ in range(nrandom):
+        n, h, cnt = 0, [], 0
+        for _ in range(rng.choice([6, 12, 30, 60])):
+            k = rng.random()
+            if k < 0.55 or n == 0:
+                h.append(f"uappend {rng.randrange(3)} {cnt}"); cnt += 1; n += 1
+            elif k < 0.85:
+                p = rng.randrange(n + 1)
+                h.append(f"uremove {p}"); n -= 1 if p < n else 0
+            elif k < 0.95:
+                h.append("uremoveBack"); n -= 1
+            else:
+                h.append("uclear"); n = 0
+        hs.append(h)
     return hs
 
 
@@ -501,7 +535,7 @@ def nontrivial(h, out):
     if len(h) < 3 or not out:
         return None
     last = out[-1]
-    if last.startswith("t ") and not last.startswith("t 0 "):
+    if last[:2] in ("t ", "u ") and not last[1:].startswith(" 0 "):
         return (frozenset(l.split()[0] for l in h), last)
     if last == "bad-op" or " | " not in last:
         return None
